@@ -32,7 +32,7 @@ for p in props:
         'engine': 'hplmon',
         'level_claimed': {
             'category': getattr(mod, 'LEVEL', 'exploration'),
-            'text': getattr(mod, 'LEVEL_TEXT', mod.RULE),
+            'text': getattr(mod, 'LEVEL_TEXT', mod.RULE + getattr(mod, 'RULE_ADDED', '')),
             'design_ref': f'DESIGN.md section 5, {pid}',
         },
         'level_note': '; '.join(getattr(mod, 'ASSUMPTIONS', [])) or 'oracle tables of DESIGN.md Appendix A',
